@@ -93,7 +93,7 @@ func c20Oracle(x float64, lat bool, s string) string {
 
 func runC20(ctx *Ctx) error {
 	r, res := ctx.Rng, ctx.Res
-	res.Rule = "cases: (lat|lon, binary64 value) on a dense grid, next to whole degrees and whole minutes (+-1..3 ulp), random; all courses -3..363 x {M,T}; PosReport.Message for all optional-field combinations. Compared: decToMinDec / NewCourse.String / message body vs the extracted model; oracle: the property's format/value statement on the implementation's output. Non-trivial: coordinate with non-zero minutes fraction, distinct by (kind,value)."
+	res.Rule = "cases: (lat|lon, binary64 value) on a dense grid, next to whole degrees and whole minutes (+-1..3 ulp), random; all courses -3..363 x {M,T}; PosReport.Message for all optional-field combinations (coordinates random, and exactly 0, -0, the poles and the date line). Compared: decToMinDec / NewCourse.String / message body vs the extracted model; oracle: the property's format/value statement on the implementation's output. Non-trivial: coordinate with non-zero minutes fraction, distinct by (kind,value)."
 	type fc struct {
 		x   float64
 		lat bool
@@ -215,6 +215,12 @@ func runC20(ctx *Ctx) error {
 			}
 			ml := []string{"posrep", ts(p.Date.UTC().Format(fbb.DateLayout))}
 			lat, lon := r.Float64()*180-90, r.Float64()*360-180
+			if rep%2 == 1 {
+				// on the equator / the prime meridian the hemisphere column is a blank: the line
+				// ends in a space that belongs to the format; also the poles and the date line
+				lat = []float64{0, math.Copysign(0, -1), 90, -90, 0}[r.Intn(5)]
+				lon = []float64{0, math.Copysign(0, -1), 180, -180, 0}[r.Intn(5)]
+			}
 			coord := func(set bool, x float64) string {
 				if !set {
 					return "none"
